@@ -217,6 +217,22 @@ class AppHost:
                     )
                     if error is not None:
                         raise error
+            elif op == "stream_until_disconnect":
+                # an event-stream style application: a chunk every dt, gives up (response unfinished) as soon as
+                # it is told the client has gone, completes normally after n chunks otherwise
+                _, n, dt = step
+                error = await self._send(inst, send, {"type": "http.response.start", "status": 200, "headers": []})
+                gone = False
+                for i in range(n):
+                    await self._send(inst, send, {"type": "http.response.body", "body": b"event-%d;" % i,
+                                                  "more_body": True})
+                    m = await self._recv_timeout(inst, receive, dt)
+                    if m is not None and m["type"] == "http.disconnect":
+                        gone = True
+                        break
+                if gone:
+                    return
+                await self._send(inst, send, {"type": "http.response.body", "body": b"", "more_body": False})
             elif op == "pause":
                 await self._pause(step[1], inst)
             elif op == "raise":
@@ -242,6 +258,20 @@ class AppHost:
                 await step[1](self, inst, receive, send)
             else:
                 raise RuntimeError(f"unknown program step {op}")
+
+    async def _recv_timeout(self, inst: Instance, receive: Callable, dt: float) -> Optional[dict]:
+        if self.worker == "asyncio":
+            import asyncio
+
+            try:
+                return await asyncio.wait_for(self._recv(inst, receive), dt)
+            except asyncio.TimeoutError:
+                return None
+        import trio
+
+        with trio.move_on_after(dt):
+            return await self._recv(inst, receive)
+        return None
 
     async def _pause(self, spec: Any, inst: Optional[Instance] = None) -> None:
         kind, amount = spec[0], spec[1]
